@@ -123,3 +123,59 @@ pub fn cs_stream(driver: &Driver, seed: u64, n: u64) -> CStream {
     }
     st
 }
+
+/// `PagesNode`: the hand-written reader (takes `/Type` out, then `Page::from_dict` / `PageTree::from_dict`) and writer
+/// (the variant's own derived writer) against `readPagesNode` / `writePagesNode` of the interpreter: read, write,
+/// read, write on generated page and page-tree dictionaries
+pub fn pn_stream(driver: &Driver, schemas: &[SchemaJ], seed: u64, n: u64) -> CStream {
+    let mut st = CStream::new("c15.pn", true);
+    let peel = super::tree_peels();
+    let mut reqs = vec![];
+    let mut imps = vec![];
+    for case in 0..n {
+        let mut rng = Rng::derive(seed, "c15.pn", case);
+        let which = if rng.chance(1, 2) { "Page" } else { "PageTree" };
+        let Some(sc) = schemas.iter().find(|s| s.name == which) else { continue };
+        let mut g = Gen::new(schemas, true);
+        g.always_tags = true;
+        let Some(mut p) = g.model_value(&mut rng, sc, None, if case % 3 == 0 { 0 } else { 2 }) else { continue };
+        // now and then: no /Type (refused by the hand-written reader though the derived ones would accept), a wrong one
+        let mut form = "typed";
+        if let Primitive::Dictionary(d) = &mut p {
+            match rng.below(12) {
+                0 => {
+                    d.remove("Type");
+                    form = "type-removed";
+                }
+                1 => {
+                    d.insert("Type", name_prim(if which == "Page" { "Pages" } else { "Page" }));
+                    form = "type-of-the-other-variant";
+                }
+                2 => {
+                    d.insert("Type", name_prim("Catalog"));
+                    form = "type-foreign";
+                }
+                _ => {}
+            }
+        }
+        let tolerant = rng.chance(1, 4);
+        let (p, objs) = if rng.chance(1, 5) {
+            let mut o = g.objs.clone();
+            o.insert(90, p);
+            (Primitive::Reference(PlainRef { id: 90, gen: 0 }), o)
+        } else {
+            (p, g.objs.clone())
+        };
+        let missing = HashMap::new();
+        let res = real_rt::<PagesNode>(&p, &objs, &missing, tolerant);
+        st.count(&format!("variant={} {}", which, form));
+        st.count(&format!("outcome={}", res.answer.split(' ').next().unwrap_or("")));
+        reqs.push(super::request(peel, tolerant, "l.PagesNode", &objs, &missing, &p));
+        imps.push(res.answer);
+    }
+    let resp = driver.ask(&reqs);
+    for ((rq, m), imp) in reqs.iter().zip(resp.iter()).zip(imps.iter()) {
+        st.case(rq, m, imp, imp.starts_with("ok"));
+    }
+    st
+}
